@@ -84,6 +84,35 @@ CHECKS["C04"] = dict(
     technique="fault families defined in the TLA+ wire spec, enumerated by TLC per behaviour; every fault replayed into the real decoders with the specified outcome as oracle",
 )
 
+CHECKS["C02"] = dict(
+    category="model_checking",
+    text="spec/Framing.tla - the frame stream of a connection (header grammar of implementing_world.md spelled out in bytes, writer/reader positions, keystream positions; the reader is driven by the header BYTES only) - is model checked by TLC: HeaderExact, Aligned, RoundTrip, KeysAligned/InStep, BodyClear, NoStuckReader, HeaderCodec (band; whole range 0..0x7FFFFD in thorough). Every explored history (1-3 frames, body lengths around 0x7FFF / 0xFFFF / the caps, 3 expansions x 2 directions x {opcode-enum reader, expect helper, expect helper of another type} x {plain, encrypted}; 30k quick / 57k thorough) is replayed into the real write_*/read_*/expect_* functions (blocking, tokio, async-std): every header byte, total and declared length, reader position after each message, delivered message. thorough adds every body length 0..0x1_0010 and every 4,099th up to the cap. Seeded random sequences are recorded from the real code and validated by spec/TraceFraming.tla.",
+    design_ref="DESIGN.md section 5 C02, notes/C02.md",
+    note="Trusted: tools/framing_pool.py (opcodes / body shapes of 8 pool messages from the wowm text), the reading 0x7FF -> 0x7FFF of implementing_world.md, harness construction of a message with a requested body length, TLC + Json/IOUtils. Pool messages stand for all messages (the header paths are message independent except the compressed overrides, which only the random driver exercises). Bodies the form cannot express are out of scope.",
+    technique="TLA+ spec model-checked with TLC; spec->impl replay of every explored history; impl->spec trace validation of random sequences with TLC",
+)
+CHECKS["C05"] = dict(
+    category="model_checking",
+    text="spec/Framing.tla in mode c05: both directions of a connection with four header cipher halves, each modelled by the keystream bytes it has consumed; WriteEncrypted / ReadEncrypted advance them by the header bytes of the form in use (Wrath server 4 or 5). TLC checks KeysAligned, InStep, BodyClear, Aligned, RoundTrip over all dialogues of up to 4 messages from the size classes around the 2->3 byte switch and the 16 bit limits (37k quick / 45k thorough). Each dialogue is executed with REAL wow_srp halves built through the public ProofSeed handshake under 4 / 64 session keys: plain and encrypted output written in parallel may differ only in the model's header ranges, the encrypted header must equal the raw cipher of a reference half applied to the model's header, the peer's decrypting readers (opcode enum, expect helpers; blocking/tokio/async-std) must return the same messages at the same positions, and after every message each real half must be in the state of its reference half. Random dialogues of up to 200 messages are recorded and validated by spec/TraceFraming.tla.",
+    design_ref="DESIGN.md section 5 C05, notes/C05.md",
+    note="Trusted: the abstraction of a half by its keystream position (Vanilla/TBC state also depends on the previous ciphertext byte; the reference halves reproduce it because they are fed the same bytes), observing state equality through an 8 byte probe on clones, the pool messages of C02, TLC. The overridden write_encrypted_* of compressed messages are exercised by the random driver only.",
+    technique="TLA+ spec model-checked with TLC; spec->impl replay of every dialogue with real cipher halves under several keys; impl->spec trace validation of random dialogues",
+)
+CHECKS["C10"] = dict(
+    category="model_checking",
+    text="RFC 8927 validity (spec/Jtd.tla) and the refinement mapping Abs/Norm/Bound (spec/IrRefine.tla) are evaluated by TLC, exhaustively, on every object of the intermediate representation regenerated from /repo's working tree (2,923 schema records; 2,239 source instances forward, 2,239 IR objects backward - omitting nothing, inventing nothing - with the first differing field path per object); behavioural cross-check: the terminal behaviours of spec/WowmWire.tla over the lowered sources and over a corpus lowered from the IR coincide (thorough: ~60k + ~68k behaviours, every controlling enumerator).",
+    design_ref="DESIGN.md section 5 C10, notes/C10.md",
+    note="Trusted: tools/wowm_front.py, tools/irlower.py (lexical/structural lowering), the normalisations N1-N8 stated in IrRefine.tla, tools/regen.py (scratch run of the generator), WowmWire's bounds for the cross-check. Honest limit: a refinement mapping between two documents evaluated by a model checker, not a state-space exploration; the JTD clause is the thinnest use of TLA+.",
+    technique="TLA+ JTD-validity and refinement-mapping predicates evaluated by TLC on the regenerated IR; spec-level behavioural equivalence through the wire model",
+)
+CHECKS["C03"] = dict(
+    category="fault_enumeration",
+    text="The C03 fault family of spec/WowmWire.tla corrupts the canonical encodings of every message at chosen places (every field event set to zeros / ones / 1 / 0x7f.. / 2, truncation at every field boundary with a consistent and with the original header, trailing garbage, header size +1 / 0) and the driver adds seeded random bodies behind every defined opcode; each frame is decoded by the real public readers in a worker process with a 1 GiB address-space limit and a 5 s per-frame watchdog, with overflow checks on. Only Ok(_) and Err(_) are acceptable; panics, aborts (stack overflow, allocation failure), and timeouts are violations (~290k frames quick).",
+    design_ref="DESIGN.md section 5 C03",
+    note="Trusted: the worker isolation in tools/replay.py (resume after a killing record) and harness/vh/src/codec.rs (RLIMIT_AS, watchdog), the wire model for valid-up-to-one-field inputs. Not generated: zlib-level corruptions other than same-length replacements inside the plain payload, frames larger than a few hundred bytes.",
+    technique="fault family defined in the TLA+ wire spec and enumerated by TLC per behaviour, plus seeded random frames; every frame decoded in an isolated, resource-limited worker",
+)
+
 NOT_YET = {}
 
 def main():
